@@ -1,6 +1,6 @@
 """C03 — committed history is exactly a prefix of the sequential history."""
 import vcommon as V, simrun as S
-from checks import simcommon as C
+from checks import simcommon as C, c04
 
 
 def run(c, replay):
@@ -14,7 +14,7 @@ def run(c, replay):
                       "events that lie after the point where all predicates held)",
                       "as C01: refinement of the C runtime to the abstract machine is by differential runs"]
     nprogs = 10 if c.tier == "quick" else 100
-    mask = S.mask("COMMIT", "FINI_ENTRY", "GVT", "GVT_DRAIN", "FOSSIL")
+    mask = S.mask("COMMIT", "FINI_ENTRY", "GVT", "GVT_DRAIN", "FOSSIL", "EXTRACT", "GVT_PHASE")
     progs, runs = C.campaign(c, ctx, r, nprogs, mask, c.tier, extra_cfgs=[(2, 1, 20), (3, 2, 0)])
     lpruns = C.lp_campaign(c, ctx, r, 10 if c.tier == "quick" else 150, mask)
     wcov = C.worker_report(c, lpruns)
@@ -29,6 +29,10 @@ def run(c, replay):
             continue
         ok += 1
         byvar[pr["variant"]] = byvar.get(pr["variant"], 0) + 1
+        # what is committed is what lies below a delivered GVT: the bound itself must be safe on this very run (the trace oracles of C04:
+        # nothing extracted below a delivered value, every extraction lowers the thread's accumulator)
+        if pr["variant"] != "lp-level":
+            c04.monitors(c, run_, C.describe(run_))
         com, last = C.committed_per_lp(run_)
         ref = C.seq_per_lp(pr["seqfull"])
         tot = 0
@@ -52,6 +56,9 @@ def run(c, replay):
         ncommit += tot
         if tot > 10:
             nontriv += 1
+    if getattr(c, "_acc_bad", None) and not c.violations:
+        bad = dict(c._acc_bad); bad["consequence"] = "the GVT delivered to the threads is not a safe bound, so what fossil collection releases below it is not known to be committed"
+        c.violation("commit-bound-unsafe:gvt-accumulator", bad, found_input=False)
     C.finish(c, ctx)
     c.cov.update(wcov)
     c.cov.update(evaluations=len(runs), distinct_nontrivial=nontriv, runs_returned=ok, committed_events_checked=ncommit, by_variant=byvar,
